@@ -521,6 +521,18 @@ CAMPAIGNS['C02'].append(
          mode='crash-sweep', nontrivial=nt_threads, chunk=4,
          fault_step='lastbuild', post='tag_all:C02', weight=0.5,
          sweep_max={'quick': 10, 'thorough': None}, follow=1))
+CAMPAIGNS['C13'].append(camp(
+    'c13-retry-faults', 'C13',
+    dict(COMPARISON_HEAVY, p_retry=0.5, p_catch=0.95, p_hash=0.7, w_bf=40,
+         n_steps=(3, 5), p_mutate_step=0.6, p_tamper=0.8, w_raise=2),
+    'HASH / METADATA outputs tampered with between builds (also with size '
+    'and mtime preserved), and the move-aside / mkdir of the rebuilding call '
+    'fails once: the program retries build_file; the comparison result '
+    'recorded for the retried output is that of the new content (the next '
+    'unchanged build re-executes nothing, a repeated tamper is detected)',
+    mode='oserror-sweep', nontrivial=nt_rollback_restored, chunk=6, follow=1,
+    torn=False, errnos=['EACCES', 'ENOSPC'], post='tag_all:C13', weight=0.7,
+    sweep_max={'quick': 12, 'thorough': None}))
 RACE_RULE = ('a key (build_file path / subbuild name+arguments) performed '
              'directly by one thread while another thread reuses or '
              're-executes a cached subtree (depth 1-2) that contains it; '
